@@ -30,6 +30,7 @@ F_VERT = "C20-vertical-filter-uncovered-column"
 F_NA = "C20-bloom-nonascii-token-boundary"
 F_LIT = "C20-literal-type-mismatch"
 F_GRP = "C20-null-key-grouped-index"
+F_TRUNC = "C20-bloom-writer-truncated-utf8-panic"
 STROPS = ("match", "ipinrange", "like", "matchop")
 OPS = {"=": "Ceq", "!=": "Cne", "<": "Clt", "<=": "Cle", ">": "Cgt", ">=": "Cge"}
 
@@ -212,6 +213,28 @@ def bloom_predict(tree):
     return tree_fold(tree, lambda a: whole if a[2] else True)
 
 
+def ends_truncated(b):
+    """the byte string ends inside a multi-byte character, as SimpleUtf8Tokenizer steps through it (lead byte classes
+    <= 0xdf: 2 bytes, <= 0xef: 3, <= 0xf7: 4)"""
+    i = 0
+    while i < len(b):
+        x = b[i]
+        need = 1 if x < 0x80 or x > 0xf7 else (2 if x <= 0xdf else (3 if x <= 0xef else 4))
+        if i + need > len(b):
+            return True
+        i += need
+    return False
+
+
+def has_truncated_value(t):
+    chop = t["in"].get("chop") or []
+    for i, v in enumerate(t["in"]["content"]):
+        if v is not None and i < len(chop) and 0 < chop[i] < len(v.encode("utf-8")):
+            if ends_truncated(v.encode("utf-8")[:-chop[i]]):
+                return True
+    return False
+
+
 def bloom_stream(ck, cases):
     """direct oracle + model correspondence for the bloom cases; returns (verdicts, broken list)"""
     verdicts = {"known_gram": 0, "known_vert": 0, "known_nonascii": 0, "violation": 0}
@@ -255,6 +278,13 @@ def bloom_stream(ck, cases):
             mism[id(with_reader[idx * shard + k])] = pred
     for t in cases:
         bad = bool(t["oracle"])
+        if bad and (t["err"] or "").startswith("writer panic: runtime error: index out of range") and "content" in t["in"]["indexed"] and has_truncated_value(t):
+            # signature of C20-bloom-writer-truncated-utf8-panic: the indexed column holds a value that ends inside a multi-byte
+            # character and GenBloomFilterData panics with an index error
+            if ck.match_finding(F_TRUNC):
+                ck.known_finding(F_TRUNC, "BloomFilterWriter.GenBloomFilterData panics on a value that ends inside a multi-byte character")
+                verdicts["known_trunc"] = verdicts.get("known_trunc", 0) + 1
+                continue
         if bad:
             explained = False
             if t["schema"] and not t["err"]:
@@ -1090,8 +1120,8 @@ def main(ck):
         r["rb"], r["norm"], r["null"], r["null_distinguishing"], r["mismatch_counts"], r["verdicts"]))
     ck.log(ck.notes[-1])
     # stale findings (open entries that no longer reproduce) are reported, not failed
-    for fid, key in ((F_GRAM, "known_gram"), (F_NA, "known_nonascii")):
-        if ck.match_finding(fid) and bcases and bverd[key] == 0:
+    for fid, key in ((F_GRAM, "known_gram"), (F_NA, "known_nonascii"), (F_TRUNC, "known_trunc")):
+        if ck.match_finding(fid) and bcases and bverd.get(key, 0) == 0:
             ck.notes.append("open finding %s did not reproduce in this run (stale?)" % fid)
     for fid, key in ((F_RB, "known_rb"), (F_MUT, "known_mut"), (F_NULL, "known_null")):
         if ck.match_finding(fid) and r["verdicts"][key] == 0:
